@@ -356,6 +356,10 @@ fn write_replay<P: Property>(root: &Path, case: &P::Case, fails: &[Failure], ori
     path
 }
 
+pub fn write_replay_pub<P: Property>(root: &Path, case: &P::Case, fails: &[Failure], origin: &str) -> PathBuf {
+    write_replay::<P>(root, case, fails, origin)
+}
+
 /// Load a case from a replay/corpus file: either `{"case": ...}` or the bare case.
 pub fn load_case<P: Property>(path: &Path) -> Result<P::Case, String> {
     let txt = std::fs::read_to_string(path).map_err(|e| format!("{}: {e}", path.display()))?;
@@ -638,6 +642,14 @@ pub fn run<P: Property>(opts: &RunOpts) -> i32 {
         "aborted_shards": aborted,
         "exhaustive": false,
     });
+    // statistics of the libFuzzer phase, when ./check ran one for this property just before
+    if opts.tier == Tier::Thorough {
+        if let Ok(txt) = std::fs::read_to_string(root.join("fuzz-scratch").join(format!("{}.stats.json", P::ID))) {
+            if let Ok(v) = serde_json::from_str::<Value>(&txt) {
+                coverage["fuzz"] = v;
+            }
+        }
+    }
     if let Value::Object(m) = extra_cov {
         for (k, v) in m {
             coverage[k] = v;
